@@ -411,7 +411,7 @@ func genMalformed(rng *core.Rand) string {
 	case 9:
 		return "path " + listField([]string{"/{http.request.uri.path}"}) + " 2f61 2f61"
 	case 10:
-		return rng.Pick([]string{"frob 00", "provision 61 !", "provision 61,62 =", "hosti 61 62 61", "cfsite 61 named . . 61 2f 2f", "cfsite 61 weird . . 61 2f 2f", "cfsite 7b61 none . . 61 2f 2f", "cfsite 613a3939393939 none . . 61 2f 2f", "cel-host . 61", "cel-host 27 61", "json-set 61 2f61 61 2f61", "cel-path zz 2f61 2f61", "pathpair case 2f61 2f61 2f61 2f62 2f62", "pathpair glob 2f61 2f61 2f61 2f61 2f61", "pathpair slash 2f61 2f2f61 2f2f61 2f61"})
+		return rng.Pick([]string{"frob 00", "srvhost 7b61 - - - 61", "srvhost 61 - - 61", "srvhost 7b656e762e4330365f417d,7b656e762e4330365f417d 61 - - 61", "provision 61 !", "provision 61,62 =", "hosti 61 62 61", "cfsite 61 named . . 61 2f 2f", "cfsite 61 weird . . 61 2f 2f", "cfsite 7b61 none . . 61 2f 2f", "cfsite 613a3939393939 none . . 61 2f 2f", "cel-host . 61", "cel-host 27 61", "json-set 61 2f61 61 2f61", "cel-path zz 2f61 2f61", "pathpair case 2f61 2f61 2f61 2f62 2f62", "pathpair glob 2f61 2f61 2f61 2f61 2f61", "pathpair slash 2f61 2f2f61 2f2f61 2f61"})
 	default:
 		return "path " + listField([]string{"/é"}) + " 2f61 2f61"
 	}
@@ -427,6 +427,7 @@ func (prop) Generate(rng *core.Rand, tier string, emit func(string)) {
 	}
 	hr, pr, rr, mr, nr := rng.Fork(), rng.Fork(), rng.Fork(), rng.Fork(), rng.Fork()
 	vr, sr, qr := rng.Fork(), rng.Fork(), rng.Fork()
+	wr := rng.Fork()
 	for c := 0; c < n; c++ {
 		switch {
 		case c%100 == 99:
@@ -437,6 +438,8 @@ func (prop) Generate(rng *core.Rand, tier string, emit func(string)) {
 			emit(genPathRECase(rr))
 		case c%20 == 13:
 			emit(genPathPair(pr))
+		case c%50 == 21:
+			emit(genSrvCase(wr))
 		case c%25 == 9:
 			emit(genProvCase(qr))
 		case c%50 == 11:
